@@ -159,6 +159,9 @@ func (e *h1Env) relayEvents() []simcore.Event {
 	if e.wb.Done() {
 		return nil // watchBackend is gone (its panic has been recorded)
 	}
+	if e.wb.Parked() {
+		return nil // watchBackend is in the middle of processing the previous hand-over (statement-level runs)
+	}
 	var ev []simcore.Event
 	if w.pendSvc != nil {
 		ev = append(ev, simcore.Event{Key: "relay:svc", Weight: 3, Fire: func() {
@@ -252,7 +255,8 @@ func (c h1Cmd) String() string {
 		ks = append(ks, k+"="+v)
 	}
 	sort.Strings(ks)
-	return fmt.Sprintf("add svc=%s src=%s dst=%s w=%g tags=%q opts=%q", c.Service, c.Src, h1NormDst(c.Dst), c.Weight, strings.Join(c.Tags, ","), strings.Join(ks, " "))
+	// every tag is quoted on its own: ["a,b"] and ["a","b"] are different registrations
+	return fmt.Sprintf("add svc=%s src=%s dst=%s w=%g tags=%q opts=%q", c.Service, c.Src, h1NormDst(c.Dst), c.Weight, c.Tags, strings.Join(ks, " "))
 }
 
 // h1ParseCmds parses route command text with fabio's own parser into comparable strings.
